@@ -709,7 +709,7 @@ func c42(r *vkit.Run) {
 		r.Inconclusive("no handshake-phase tampering was detected")
 	}
 	// thorough: multi-op sequences and random single-bit flips
-	if nm := r.N(400, 60000); nm > 0 {
+	if nm := r.N(1500, 100000); nm > 0 {
 		vkit.Parallel(nm, workers, func(i int) {
 			g := r.Rng("multi", i)
 			ci := g.Intn(len(combos))
